@@ -42,6 +42,7 @@ fn usage() -> ! {
 
 fn main() {
     install_quiet_panic_hook();
+    asefile_harness::install_discard_logger();
     let args: Vec<String> = std::env::args().skip(1).collect();
     if args.is_empty() {
         usage();
